@@ -81,6 +81,7 @@ let log_str = function
   | LDropTls (k, b) -> Printf.sprintf "D tls %s %s" (nat_str k) (nat_str b)
   | LInitLazy k -> Printf.sprintf "I lazy %s" (nat_str k)
   | LDropLazy k -> Printf.sprintf "D lazy %s" (nat_str k)
+  | LPoll (b, pc) -> Printf.sprintf "P %s %s" (nat_str b) (nat_str pc)
 
 let cut70 s = if String.length s > 70 then String.sub s 0 70 else s
 
@@ -195,6 +196,9 @@ let instr_of (s : string) : instr =
   | [ "ag"; k; i ] -> IArcGetMut (nat_s k, nat_s i)
   | [ "au"; k; i ] -> IArcTryUnwrap (nat_s k, nat_s i)
   | [ "td"; k ] -> ITrackDrop (nat_s k)
+  | [ "bo"; a; v; w ] -> IBlockOn (nat_s a, n_of_string v, nat_s w)
+  | [ "wk"; w ] -> IWake (nat_s w)
+  | [ "tkw"; w ] -> ITakeWaker (nat_s w)
   | [ "tw"; k ] -> ITlsWith (nat_s k)
   | [ "lz"; k ] -> ILazyGet (nat_s k)
   | [ "pn" ] -> IPanic
@@ -207,7 +211,7 @@ let decl_of (s : string) : decl =
   match s.[0] with
   | 'A' -> DAtomic (n_of_string (String.sub s 1 (String.length s - 1)))
   | 'M' -> DMutex | 'R' -> DRwLock | 'C' -> DCondvar | 'N' -> DNotify | 'H' -> DChan
-  | 'U' -> DCell | 'K' -> DArc | 'T' -> DTrack
+  | 'U' -> DCell | 'K' -> DArc | 'T' -> DTrack | 'W' -> DWaker
   | _ -> raise (Bad ("decl " ^ s))
 
 let parse_prog (line : string) : string * prog =
